@@ -36,6 +36,10 @@ def fix_case(c):
 def gen_cases(tier, rng):
     for c in common.load_corpus(PID):
         yield fix_case(c)
+    # two keys whose label counts multiply beyond 2**32: label order and set on the typed-dict route of factorize_2d
+    for j in range(2 if tier == "quick" else 6):
+        yield dict(repr="bigcard", gseed=rng.randrange(1 << 30), n1=rng.choice([66000, 70000]), planted=40, sort=(j % 2 == 1), keys=[], key_classes=["int", "int"],
+                   vals=[], mask=None, fn="size", shape="ndarray", ncols=1, observed_only=True, key_container="ndarray")
     n = 2000 if tier == "quick" else 30000
     for _ in range(n):
         repr_ = rng.choice(REPRS)
@@ -53,11 +57,51 @@ def gen_cases(tier, rng):
                "key_container": rng.choice(["ndarray", "series", "list"]) if repr_ == "plain" else "ndarray", "repr": repr_}
 
 
+def evaluate_bigcard(case):
+    import numpy as np
+    from groupby_lib.groupby.core import GroupBy
+    from ..gbcases import bigcard_keys
+    k1, k2 = bigcard_keys(case["gseed"], case["n1"], case["planted"])
+    res = dict(tags=["repr:bigcard", "nkeys:2", f"sort:{case['sort']}", "fn:size"], size=len(k1), key=repr(("bigcard", case["gseed"], case["n1"], case["sort"])),
+               nontrivial=True, bucket=("bigcard", case["sort"]))
+    try:
+        gb = GroupBy([k1, k2], sort=case["sort"])
+        r = gb.size()
+        lab1, lab2 = r.index.get_level_values(0).to_numpy(), r.index.get_level_values(1).to_numpy()
+        # independent oracle: distinct pairs with their first row and their number of rows
+        pairs = k1.astype(np.int64) * (2 ** 31) + k2
+        uniq, first, counts = np.unique(pairs, return_index=True, return_counts=True)
+        order = np.arange(len(uniq)) if case["sort"] else np.argsort(first, kind="stable")
+        got = np.asarray(lab1).astype(np.int64) * (2 ** 31) + np.asarray(lab2).astype(np.int64)
+        err = None
+        if len(got) != len(uniq):
+            err = f"{len(got)} labels for {len(uniq)} distinct key pairs"
+        elif (got != uniq[order]).any():
+            g = int(np.nonzero(got != uniq[order])[0][0])
+            want = int(uniq[order][g])
+            err = (f"label {g} is ({int(lab1[g])}, {int(lab2[g])}), expected ({want >> 31}, {want & (2 ** 31 - 1)}) in "
+                   + ("lexicographic" if case["sort"] else "first-appearance") + " order")
+        elif (r.to_numpy() != counts[order]).any():
+            g = int(np.nonzero(r.to_numpy() != counts[order])[0][0])
+            err = f"size of label ({int(lab1[g])}, {int(lab2[g])}) is {int(r.to_numpy()[g])}, expected {int(counts[order][g])}"
+    except Exception as e:  # noqa
+        err = f"error:{type(e).__name__}: {str(e)[:200]}"
+    if err:
+        res.update(verdict="violation", detail=dict(case=case, expected="labels = the distinct key pairs, in first-appearance (sort=False) / lexicographic (sort=True) order",
+                                                    actual=err))
+    else:
+        res.update(verdict="ok", detail=None)
+    return res
+
+
 def evaluate(case, drv):
     import numpy as np
     import pandas as pd
     import polars as pl
     from groupby_lib.groupby.core import GroupBy
+
+    if case.get("repr") == "bigcard":
+        return evaluate_bigcard(case)
 
     n = len(case["vals"])
     nk = len(case["keys"])
@@ -90,6 +134,10 @@ def evaluate(case, drv):
     key_names = [f"k{i}" for i in range(nk)] if case["key_container"] == "series" else [None] * nk
     base = encode_values(case["vals"], "f64")
     cols = [base * (j + 1) for j in range(case["ncols"])]
+    for j in range(1, len(cols)):
+        # further columns get nulls of their own (counts differ from column to column)
+        cols[j] = cols[j].copy()
+        cols[j][[i for i in range(n) if (i * 7 + j) % 4 == 0]] = np.nan
     names_in = None
     if shape == "ndarray":
         values, names_in, single = cols[0], [None], True
@@ -203,6 +251,8 @@ def evaluate(case, drv):
 
 
 def shrink_candidates(case):
+    if case.get("repr") == "bigcard":
+        return
     n = len(case["vals"])
     if case["mask"] is not None:
         yield {**case, "mask": None}
